@@ -60,3 +60,18 @@ pub fn zip_by_ref_leftover_ok(src: &[u64], dst: &mut [u64; 2]) -> bool {
     }
     it.next().is_some()
 }
+
+/// R-TEMPINPLACE (C02): an `_in_place` operation applied to a temporary clone whose result is discarded leaves the
+/// receiver unchanged although the function reports success.
+pub fn in_place_on_temporary<F: ark_ff::Field>(x: &mut F) -> Option<&mut F> {
+    x.clone().square_in_place();
+    Some(x)
+}
+
+/// R-TEMPINPLACE twin (must NOT match): the temporary is stored back.
+pub fn in_place_on_temporary_ok<F: ark_ff::Field>(x: &mut F) -> Option<&mut F> {
+    let mut t = x.clone();
+    t.square_in_place();
+    *x = t;
+    Some(x)
+}
